@@ -16,34 +16,80 @@ open Cuckoo.Proto
 /-- while a section is active nobody else is inside a validated critical section -/
 theorem section_excludes_others (s : PS) (h : Reach s) (z t : Tid) (hz : (s.th z).owner = true) (hne : t ≠ z) :
     (s.th t).validated = false := by
-  sorry
+  have _ := hne
+  cases hv : (s.th t).validated with
+  | false => rfl
+  | true => exact ((reach_inv s h).owner_not_val hz hv).elim
 
 /-- and nobody else can pass validation while it is active: a counter load of another thread never validates it -/
 theorem no_validation_during_section (s s' : PS) (h : Reach s) (z t : Tid) (hz : (s.th z).owner = true) (hne : t ≠ z)
     (ha : accept s (.rcLoad t) = some s') : (s'.th t).validated = false := by
-  sorry
+  have _ := hne
+  have hi := reach_inv s h
+  simp only [accept] at ha
+  split at ha
+  next hp =>
+    split at ha
+    next hrc => exact (hi.owner_not_pend hz hp hrc).elim
+    next hrc =>
+      cases ha
+      simp only [upd_same]
+      obtain ⟨l, -, hv, -⟩ := hi.pend t hp
+      exact hv
+  next hp =>
+    cases ha
+    simp only [upd_same]
+    cases hv : (s.th t).validated with
+    | false => rfl
+    | true => exact (hi.owner_not_val hz hv).elim
 
 /-- the owner cannot give up a lock between a change of the table's shape and the counter bump -/
 theorem no_release_while_dirty (s : PS) (t : Tid) (l : LockId) (hd : (s.th t).dirty = true) :
     accept s (.release t l) = none := by
-  sorry
+  simp only [accept, hd, if_true]
+  split <;> rfl
 
 /-- hence an operation that took its snapshot before the section's last resize re-validates and restarts:
 its snapshot counter differs from the current one once the section has released anything -/
-theorem parked_ops_revalidate (s s' : PS) (t : Tid) (hp : (s.th t).pendingVal = true) (hold : (s.th t).snapRc < s.rc)
+theorem parked_ops_revalidate (s s' : PS) (h : Reach s) (t : Tid) (hp : (s.th t).pendingVal = true) (hold : (s.th t).snapRc < s.rc)
     (ha : accept s (.rcLoad t) = some s') : (s'.th t).mustRelease = true ∧ (s'.th t).validated = false := by
-  sorry
+  have hst : (s.th t).snapRc ≠ s.rc := by omega
+  simp only [accept, hp, hst, if_true, if_false] at ha
+  cases ha
+  simp only [upd_same, true_and]
+  obtain ⟨l, -, hv, -⟩ := (reach_inv s h).pend t hp
+  exact hv
 
 /-- growth inside the section never releases ownership: after appending an array the owner still owns the table -/
 theorem growth_keeps_ownership (s s' : PS) (h : Reach s) (t : Tid) (n : Nat) (ha : accept s (.append t n) = some s') :
     (s'.th t).owner = true ∧ s'.holdsAllCur t = true := by
-  sorry
+  have hi' := accept_inv s s' _ (reach_inv s h) ha
+  have ho : (s'.th t).owner = true := by
+    simp only [accept] at ha
+    split at ha
+    next hg =>
+      cases ha
+      simp only [upd_same]; exact hg.1
+    · cases ha
+  exact ⟨ho, (holdsGen_cur_iff s' hi'.gens_ne t).1 (hi'.owner_all t ho).1⟩
 
 /-- only an owner changes the hashpower, the bucket array or the lock arrays -/
 theorem only_owner_resizes (s s' : PS) (t : Tid) (e : Ev)
     (he : (∃ v, e = .storeHp t v) ∨ (∃ n, e = .append t n) ∨ e = .bumpRc t) (ha : accept s e = some s') :
     (s.th t).owner = true := by
-  sorry
+  rcases he with ⟨v, rfl⟩ | ⟨n, rfl⟩ | rfl
+  · simp only [accept] at ha
+    split at ha
+    next hg => exact hg
+    · cases ha
+  · simp only [accept] at ha
+    split at ha
+    next hg => exact hg.1
+    · cases ha
+  · simp only [accept] at ha
+    split at ha
+    next hg => exact hg
+    · cases ha
 
 /-! non-vacuity: a section that grows the lock array, resizes, bumps and releases; the parked reader restarts -/
 example : (run (init 1 2)
